@@ -35,3 +35,5 @@ def twin(run, shards_thorough=16):
 PROPS["C03"] = dict(level="exploration", steps=twin("^TestC03"), needs_twin=True, assumptions=TRUST)
 PROPS["C04"] = dict(level="exploration", steps=twin("^TestC04"), needs_twin=True, assumptions=TRUST)
 PROPS["C12"] = dict(level="exploration", steps=twin("^TestC12"), needs_twin=True, assumptions=TRUST)
+PROPS["C10"] = dict(level="exploration", steps=simple("^TestC10"), assumptions=TRUST)
+PROPS["C11"] = dict(level="exploration", steps=simple("^TestC11"), assumptions=TRUST)
